@@ -1100,7 +1100,9 @@ Proof.
     nf g (starts (flat_map (fun h => [TStart (new_inst orc h) h (e_rv s); TCollect (new_inst orc h) (h_trig h)]) l)) =
     nf g (collects (flat_map (fun h => [TStart (new_inst orc h) h (e_rv s); TCollect (new_inst orc h) (h_trig h)]) l)) /\
     cancels (flat_map (fun h => [TStart (new_inst orc h) h (e_rv s); TCollect (new_inst orc h) (h_trig h)]) l) = []).
-  { induction l as [|h l [I1 I2]]; cbn; [split; reflexivity|]. rewrite !nf_cons, I1, I2. split; reflexivity. }
+  { induction l as [|h l [I1 I2]]; [split; reflexivity|].
+    cbn [flat_map]. rewrite starts_app, collects_app, cancels_app, !nf_app, I1, I2.
+    split; reflexivity. }
   destruct (A hs) as [A1 A2].
   rewrite starts_app, collects_app, cancels_app, !nf_app, A1, A2.
   destruct (map h_id (filter is_task (destroy_hooks_at hooks w))); cbn; split; try reflexivity; lia.
@@ -1195,4 +1197,395 @@ Proof.
   rewrite (run_op_cancels _ _ _ _ _ _ _ Hop Hc Hr).
   pose proof (wbal_app _ _ _ _ _ _ H H2) as H3. unfold wbal in H3. rewrite pn_est0 in H3.
   unfold pn in H3. lia.
+Qed.
+
+(* ------------------------------------------------------------------ not before the trigger moment *)
+(* walk over a trace with the currently open transition step: a call may only be started while
+   the step of its own trigger moment is open *)
+Fixpoint ne_walk (o : option mname) (t : list tev) : option (option mname) :=
+  match t with
+  | [] => Some o
+  | TStep (SMoment m) true _ :: r => ne_walk (Some m) r
+  | TStep (SMoment m) false _ :: r => ne_walk None r
+  | TStart _ h _ :: r =>
+    match o with
+    | Some m => if mname_eqb (fst (h_trig h)) m then ne_walk o r else None
+    | None => None
+    end
+  | _ :: r => ne_walk o r
+  end.
+
+Lemma ne_walk_app a : forall o b,
+  ne_walk o (a ++ b) = match ne_walk o a with Some o' => ne_walk o' b | None => None end.
+Proof.
+  induction a as [|x a IH]; intros o b; [reflexivity|].
+  destruct x as [i h sn| | |n bg er| | | | |]; cbn [app ne_walk]; try apply IH.
+  - destruct o as [m|]; [|reflexivity]. destruct (mname_eqb (fst (h_trig h)) m); [apply IH|reflexivity].
+  - destruct n as [m|e]; [destruct bg|]; apply IH.
+Qed.
+
+Lemma ne_walk_pass hooks orc m ws r t o :
+  Forall (pass_ev hooks orc m ws r) t -> o = Some m -> ne_walk o t = Some o.
+Proof.
+  intros H ->. induction H as [|x t Hx _ IH]; [reflexivity|].
+  destruct x; cbn in Hx; try contradiction; cbn [ne_walk]; try exact IH.
+  destruct Hx as (_ & _ & Hm & _). rewrite Hm, mname_eqb_refl. exact IH.
+Qed.
+
+Definition is_run_ev (x : tev) : Prop := match x with TRun _ _ _ => True | _ => False end.
+
+Lemma ne_walk_runs o t : Forall is_run_ev t -> ne_walk o t = Some o.
+Proof.
+  induction 1 as [|x t Hx _ IH]; [reflexivity|]. destruct x; cbn in Hx; try contradiction. exact IH.
+Qed.
+
+Lemma builtin_before_runs e s s' tb : builtin_before e s = (s', tb) -> Forall is_run_ev tb.
+Proof.
+  unfold builtin_before. destruct e; try (intro H; inversion H; subst; solve [repeat constructor]).
+  - destruct (set_soeor_if_empty s) as [s1 [|]]; intro H; inversion H; repeat constructor.
+  - destruct (set_soeor_if_empty s) as [s1 [|]]; intro H; inversion H; repeat constructor.
+Qed.
+
+Lemma builtin_after_runs e err s s' ta : builtin_after e err s = (s', ta) -> Forall is_run_ev ta.
+Proof.
+  unfold builtin_after. destruct e; try (intro H; inversion H; subst; solve [repeat constructor]).
+  destruct (set_eoeor_if_empty s) as [s1 [|]]; intro H; inversion H; repeat constructor.
+Qed.
+
+(* a callback's trace, walked from "no step open": never rejected; closed again unless the core
+   died inside *)
+Definition stage_ne (t : list tev) (c : bool) : Prop :=
+  exists o', ne_walk None t = Some o' /\ (c = false -> o' = None).
+
+Ltac ne_steps :=
+  repeat first
+    [ rewrite ne_walk_app
+    | erewrite ne_walk_pass by (first [eassumption | reflexivity])
+    | erewrite ne_walk_runs by eassumption ].
+
+Lemma before_stage_ne hooks orc e s s' t errs c :
+  before_stage hooks orc e s = (s', t, errs, c) -> stage_ne t c.
+Proof.
+  unfold before_stage, stage_ne, bstep, estep.
+  destruct (run_pass hooks orc (MBefore e) wneg s) as [[s1 t1] p1] eqn:E1.
+  apply run_pass_events in E1.
+  destruct p1.
+  - destruct (builtin_before e s1) as [s2 tb] eqn:Eb. apply builtin_before_runs in Eb.
+    destruct (run_pass hooks orc (MBefore e) wnonneg s2) as [[s3 t3] p3] eqn:E3.
+    apply run_pass_events in E3.
+    destruct p3; intro H; inversion H; subst; clear H; cbn [ne_walk]; ne_steps; cbn [ne_walk];
+      eexists; (split; [reflexivity|]); try reflexivity; discriminate.
+  - intro H; inversion H; subst; clear H; cbn [ne_walk]; ne_steps; cbn [ne_walk].
+    eexists; split; reflexivity.
+  - intro H; inversion H; subst; clear H; cbn [ne_walk]; ne_steps.
+    eexists; split; [reflexivity|discriminate].
+Qed.
+
+Lemma leave_stage_ne hooks orc src s s' t errs c :
+  leave_stage hooks orc src s = (s', t, errs, c) -> stage_ne t c.
+Proof.
+  unfold leave_stage, stage_ne, bstep, estep.
+  destruct (run_pass hooks orc (MLeave src) wneg s) as [[s1 t1] p1] eqn:E1.
+  apply run_pass_events in E1.
+  destruct p1.
+  - destruct (run_pass hooks orc (MLeave src) wnonneg (builtin_leave src s1)) as [[s3 t3] p3] eqn:E3.
+    apply run_pass_events in E3.
+    destruct p3; intro H; inversion H; subst; clear H; cbn [ne_walk]; ne_steps; cbn [ne_walk];
+      eexists; (split; [reflexivity|]); try reflexivity; discriminate.
+  - intro H; inversion H; subst; clear H; cbn [ne_walk]; ne_steps; cbn [ne_walk].
+    eexists; split; reflexivity.
+  - intro H; inversion H; subst; clear H; cbn [ne_walk]; ne_steps.
+    eexists; split; [reflexivity|discriminate].
+Qed.
+
+Lemma enter_stage_ne hooks orc d s s' t errs c :
+  enter_stage hooks orc d s = (s', t, errs, c) -> stage_ne t c.
+Proof.
+  unfold enter_stage, stage_ne, bstep, estep.
+  destruct (run_pass hooks orc (MEnter d) wneg s) as [[s1 t1] p1] eqn:E1.
+  apply run_pass_events in E1.
+  destruct (is_crash p1).
+  - intro H; inversion H; subst; clear H; cbn [ne_walk]; ne_steps.
+    eexists; split; [reflexivity|discriminate].
+  - destruct (run_pass hooks orc (MEnter d) wnonneg s1) as [[s2 t2] p2] eqn:E2.
+    apply run_pass_events in E2.
+    destruct (is_crash p2); intro H; inversion H; subst; clear H; cbn [ne_walk]; ne_steps; cbn [ne_walk];
+      eexists; (split; [reflexivity|]); try reflexivity; discriminate.
+Qed.
+
+Lemma after_stage_ne hooks orc e err0 s s' t errs c :
+  after_stage hooks orc e err0 s = (s', t, errs, c) -> stage_ne t c.
+Proof.
+  unfold after_stage, stage_ne, bstep, estep.
+  destruct (run_pass hooks orc (MAfter e) wneg s) as [[s1 t1] p1] eqn:E1.
+  apply run_pass_events in E1.
+  destruct (is_crash p1).
+  - intro H; inversion H; subst; clear H; cbn [ne_walk]; ne_steps.
+    eexists; split; [reflexivity|discriminate].
+  - destruct (builtin_after e (err0 || nonnil (perrs (MAfter e) p1)) s1) as [s2 ta] eqn:Ea.
+    apply builtin_after_runs in Ea.
+    destruct (run_pass hooks orc (MAfter e) wnonneg s2) as [[s3 t3] p3] eqn:E3.
+    apply run_pass_events in E3.
+    destruct (is_crash p3); intro H; inversion H; subst; clear H; cbn [ne_walk]; ne_steps; cbn [ne_walk];
+      eexists; (split; [reflexivity|]); try reflexivity; discriminate.
+Qed.
+
+Lemma body_trace_ne e ok : ne_walk None (body_trace e ok) = Some None.
+Proof. reflexivity. Qed.
+
+(* C08: in every transition each call is started while the step of its trigger moment is open *)
+Opaque body_trace.
+Lemma transition_not_early hooks orc e b s s' t r :
+  transition hooks orc e b s = (s', t, r) -> exists o, ne_walk None t = Some o.
+Proof.
+  unfold transition. destruct (dst_of e (e_st s)) as [d|]; [|intro H; inversion H; eexists; reflexivity].
+  destruct (before_stage hooks orc e s) as [[[s1 tB] eB] cB] eqn:EB.
+  apply before_stage_ne in EB. destruct EB as (oB & HB & CB).
+  destruct cB; [intro H; inversion H; subst; eexists; exact HB|]. rewrite (CB eq_refl) in HB.
+  destruct eB as [|pe eB]; [|intro H; inversion H; subst; eexists; exact HB].
+  destruct (leave_stage hooks orc (e_st s) s1) as [[[s2 tL] eL] cL] eqn:EL.
+  apply leave_stage_ne in EL. destruct EL as (oL & HL & CL).
+  destruct cL; [intro H; inversion H; subst; rewrite ne_walk_app, HB; eexists; exact HL|].
+  rewrite (CL eq_refl) in HL.
+  destruct eL as [|pe eL]; [|intro H; inversion H; subst; rewrite ne_walk_app, HB; eexists; exact HL].
+  assert (BL : forall x, ne_walk None (tB ++ tL ++ x) = ne_walk None x).
+  { intro x. rewrite ne_walk_app, HB. cbv beta iota. rewrite ne_walk_app, HL. reflexivity. }
+  destruct b.
+  - destruct (enter_stage hooks orc d (set_st d s2)) as [[[s4 tE] eE] cE] eqn:EE.
+    apply enter_stage_ne in EE. destruct EE as (oE & HE & CE).
+    destruct cE.
+    + intro H; inversion H; subst. rewrite BL, ne_walk_app, body_trace_ne. eexists; exact HE.
+    + rewrite (CE eq_refl) in HE.
+      destruct (after_stage hooks orc e (nonnil eE) s4) as [[[s5 tA] eA] cA] eqn:EA.
+      apply after_stage_ne in EA. destruct EA as (oA & HA & CA).
+      destruct cA; intro H; inversion H; subst;
+        rewrite BL, ne_walk_app, body_trace_ne; cbv beta iota; rewrite ne_walk_app, HE; eexists; exact HA.
+  - intro H; inversion H; subst. rewrite BL. eexists; apply body_trace_ne.
+  - intro H; inversion H; subst. rewrite BL. eexists; apply body_trace_ne.
+Qed.
+Transparent body_trace.
+
+(* ------------------------------------------------------------------ built-in work placement *)
+
+Lemma ssorted_split {A} (R : A -> A -> Prop) (a : list A) x b :
+  StronglySorted R (a ++ x :: b) -> Forall (fun y => R y x) a /\ Forall (R x) b.
+Proof.
+  induction a as [|y a IH]; cbn; intro H; inversion H as [|? ? Hs Hf]; subst.
+  - split; [constructor|exact Hf].
+  - destruct (IH Hs) as [A1 A2]. split; [|exact A2]. constructor; [|exact A1].
+    rewrite Forall_forall in Hf. apply Hf. apply in_or_app. right. left. reflexivity.
+Qed.
+
+Lemma phase_of_0 e src d m : phase_of e src d m = Some 0 -> m = MBefore e.
+Proof.
+  unfold phase_of. destruct (mname_eqb m (MBefore e)) eqn:E; [intros _; apply mname_eqb_spec; exact E|].
+  destruct (mname_eqb m (MLeave src)); [discriminate|]. destruct (mname_eqb m (MEnter d)); [discriminate|].
+  destruct (mname_eqb m (MAfter e)); discriminate.
+Qed.
+Lemma phase_of_4 e src d m : phase_of e src d m = Some 4 -> m = MAfter e.
+Proof.
+  unfold phase_of. destruct (mname_eqb m (MBefore e)) eqn:E; [discriminate|].
+  destruct (mname_eqb m (MLeave src)); [discriminate|]. destruct (mname_eqb m (MEnter d)); [discriminate|].
+  destruct (mname_eqb m (MAfter e)) eqn:E4; [intros _; apply mname_eqb_spec; exact E4|discriminate].
+Qed.
+Lemma phase_of_range e src d m ph : phase_of e src d m = Some ph -> ph = 0 \/ ph = 1 \/ ph = 3 \/ ph = 4.
+Proof.
+  unfold phase_of. destruct (mname_eqb m (MBefore e)); [intro H; inversion H; auto|].
+  destruct (mname_eqb m (MLeave src)); [intro H; inversion H; auto|].
+  destruct (mname_eqb m (MEnter d)); [intro H; inversion H; auto|].
+  destruct (mname_eqb m (MAfter e)); [intro H; inversion H; auto|discriminate].
+Qed.
+
+Lemma wneg_wnonneg w : wnonneg w = negb (wneg w).
+Proof. unfold wnonneg, wneg. destruct (w <? 0)%Z eqn:E; [apply Z.ltb_lt in E|apply Z.ltb_ge in E]; cbn; [apply Z.leb_gt|apply Z.leb_le]; lia. Qed.
+
+(* C08: the built-in work of before_<event> (marked by its STARTED run event) lies after every
+   call of negative weight and before every call of non-negative weight of that moment *)
+Lemma builtin_split_before hooks orc e b s s' t r d t1 tr rn t2 :
+  transition hooks orc e b s = (s', t, r) -> dst_of e (e_st s) = Some d ->
+  t = t1 ++ TRun tr 0 rn :: t2 ->
+  (forall i h snap, In (TStart i h snap) t1 ->
+     fst (h_trig h) = MBefore e /\ wneg (snd (h_trig h)) = true) /\
+  (forall i h snap, In (TStart i h snap) t2 -> fst (h_trig h) = MBefore e ->
+     wnonneg (snd (h_trig h)) = true).
+Proof.
+  intros H Hd ->. pose proof (transition_sorted _ _ _ _ _ _ _ _ _ H Hd) as S.
+  rewrite map_app in S. cbn [map] in S. apply ssorted_split in S. destruct S as [S1 S2].
+  rewrite Forall_forall in S1, S2. split.
+  - intros i h snap Hin. specialize (S1 _ (in_map (tkey e (e_st s) d) _ _ Hin)).
+    cbn [tkey] in S1. unfold kle, seg_of_point in S1. cbn [fst snd] in S1.
+    destruct (phase_of e (e_st s) d (fst (h_trig h))) as [ph|] eqn:P; [|cbn in S1; lia].
+    pose proof (phase_of_range _ _ _ _ _ P) as R.
+    destruct (wneg (snd (h_trig h))) eqn:W; cbn in S1.
+    + split; [|reflexivity]. apply (phase_of_0 e (e_st s) d).
+      destruct R as [-> | [-> | [-> | ->]]]; [exact P|(cbn in S1; lia) ..].
+    + exfalso. destruct R as [-> | [-> | [-> | ->]]]; cbn in S1; lia.
+  - intros i h snap Hin Hm. specialize (S2 _ (in_map (tkey e (e_st s) d) _ _ Hin)).
+    cbn [tkey] in S2. unfold kle, seg_of_point in S2. cbn [fst snd] in S2.
+    rewrite Hm, phase_before in S2. rewrite wneg_wnonneg.
+    destruct (wneg (snd (h_trig h))); [cbn in S2; lia|reflexivity].
+Qed.
+
+(* ... and the built-in work of after_<event> (its DONE run event) likewise *)
+Lemma builtin_split_after hooks orc e b s s' t r d t1 tr st rn t2 :
+  transition hooks orc e b s = (s', t, r) -> dst_of e (e_st s) = Some d ->
+  t = t1 ++ TRun tr st rn :: t2 -> st <> 0 ->
+  (forall i h snap, In (TStart i h snap) t1 -> fst (h_trig h) = MAfter e ->
+     wneg (snd (h_trig h)) = true) /\
+  (forall i h snap, In (TStart i h snap) t2 -> fst (h_trig h) = MAfter e ->
+     wnonneg (snd (h_trig h)) = true).
+Proof.
+  intros H Hd -> Hst. pose proof (transition_sorted _ _ _ _ _ _ _ _ _ H Hd) as S.
+  rewrite map_app in S. cbn [map] in S. apply ssorted_split in S. destruct S as [S1 S2].
+  assert (K : tkey e (e_st s) d (TRun tr st rn) = (22, 0)%Z).
+  { cbn [tkey]. destruct (st =? 0) eqn:E; [apply N.eqb_eq in E; contradiction|reflexivity]. }
+  rewrite K in S1, S2. rewrite Forall_forall in S1, S2. split.
+  - intros i h snap Hin Hm. specialize (S1 _ (in_map (tkey e (e_st s) d) _ _ Hin)).
+    cbn [tkey] in S1. unfold kle, seg_of_point in S1. cbn [fst snd] in S1.
+    rewrite Hm, phase_after in S1.
+    destruct (wneg (snd (h_trig h))); [reflexivity|cbn in S1; lia].
+  - intros i h snap Hin Hm. specialize (S2 _ (in_map (tkey e (e_st s) d) _ _ Hin)).
+    cbn [tkey] in S2. unfold kle, seg_of_point in S2. cbn [fst snd] in S2.
+    rewrite Hm, phase_after in S2. rewrite wneg_wnonneg.
+    destruct (wneg (snd (h_trig h))); [cbn in S2; lia|reflexivity].
+Qed.
+
+(* ------------------------------------------------------------------ await points of a pass *)
+(* [await_closed]: every await point of a call of this pass that lies at a later weight of the
+   same pass is itself on the list of weights the pass visits *)
+Definition await_closed (hooks : list hook) (m : mname) (pred : Z -> bool) (ws : list Z) : Prop :=
+  forall h, In h hooks -> is_call h = true -> fst (h_trig h) = m -> In (snd (h_trig h)) ws ->
+    fst (h_await h) = m -> pred (snd (h_await h)) = true ->
+    (snd (h_trig h) < snd (h_await h))%Z -> In (snd (h_await h)) ws.
+
+Lemma await_closed_tail hooks m pred w0 ws :
+  StronglySorted Z.lt (w0 :: ws) -> await_closed hooks m pred (w0 :: ws) -> await_closed hooks m pred ws.
+Proof.
+  unfold await_closed. intros S H h Hh Hc Hm Hw Ha Hp Hlt. apply StronglySorted_inv in S. destruct S as [_ Hf].
+  rewrite Forall_forall in Hf. pose proof (Hf _ Hw) as Hw0.
+  destruct (H h Hh Hc Hm (or_intror Hw) Ha Hp Hlt) as [E|I]; [lia|exact I].
+Qed.
+
+Lemma pass_loop_await hooks orc m pred ws :
+  StronglySorted Z.lt ws -> await_closed hooks m pred ws ->
+  forall s s' t, pass_loop hooks orc m ws s = (s', t, POk) ->
+  forall w i, In ((m, w), i) (e_pend s') -> pred w = true ->
+    (In ((m, w), i) (e_pend s) /\ ~ In w ws) \/
+    (exists h snap, In (TStart i h snap) t /\ h_await h = (m, w) /\ (w < snd (h_trig h))%Z).
+Proof.
+  intros S. induction S as [|w0 ws S IH Hw0]; intros Hcl s s' t; cbn [pass_loop].
+  - intro H; inversion H; subst. intros w i Hin _. left. split; [exact Hin|intros []].
+  - destruct (do_weight hooks orc m w0 s) as [[[s1 t1] f] c] eqn:E.
+    destruct c; [discriminate|]. destruct f as [wf|]; [discriminate|].
+    destruct (pass_loop hooks orc m ws s1) as [[s2 t2] p2] eqn:E2.
+    intro H; inversion H; subst. clear H.
+    pose proof (await_closed_tail _ _ _ _ _ (SSorted_cons _ S Hw0) Hcl) as Hcl'.
+    intros w i Hin Hp.
+    destruct (IH Hcl' _ _ _ E2 w i Hin Hp) as [[Hin1 Hnw]|(h & snap & Hs & Ha & Hlt)].
+    + apply do_weight_shape in E. destruct E as (Hpend & _ & _ & _ & _ & t3 & -> & _).
+      rewrite Hpend in Hin1. unfold dw_pend2 in Hin1. apply filter_In in Hin1.
+      destruct Hin1 as [Hin1 Hne]. unfold at_point in Hne. cbn [fst] in Hne.
+      assert (Hww : w <> w0).
+      { intros ->. rewrite point_eqb_refl in Hne. discriminate. }
+      unfold dw_pend1 in Hin1. apply in_app_or in Hin1. destruct Hin1 as [Hold|Hnew].
+      * left. split; [exact Hold|]. intros [Heq|Hr]; [congruence|contradiction].
+      * apply in_map_iff in Hnew. destruct Hnew as (h & Heq & Hh). inversion Heq as [[Ha Hi]].
+        unfold dw_calls in Hh. apply filter_In in Hh. destruct Hh as [Hh Hc].
+        apply hooks_at_in in Hh. destruct Hh as [Hh Ht].
+        assert (Hst : In (TStart (new_inst orc h) h (e_rv s)) (dw_t1 hooks orc m w0 s)).
+        { unfold dw_t1, dw_calls. apply in_map_iff. exists h. split; [reflexivity|].
+          apply filter_In. split; [apply hooks_at_in; auto|exact Hc]. }
+        destruct (Z.lt_ge_cases w w0) as [Hlt|Hge].
+        -- right. exists h, (e_rv s). split; [|split; [exact Ha|rewrite Ht; exact Hlt]].
+           apply in_or_app. left. apply in_or_app. left. exact Hst.
+        -- exfalso. apply Hnw.
+           assert (Hin' : In (snd (h_await h)) (w0 :: ws)).
+           { apply (Hcl h Hh Hc); rewrite ?Ht, ?Ha; cbn [fst snd]; auto; [left; reflexivity|lia]. }
+           rewrite Ha in Hin'. cbn [snd] in Hin'. destruct Hin' as [Heq'|Hr]; [congruence|exact Hr].
+    + right. exists h, snap. split; [apply in_or_app; right; exact Hs|auto].
+Qed.
+
+(* C08, await clause (holds under the side condition): when handleHooks has gone through the
+   weights of moment [m] selected by [pred] without a critical failure, the only calls still
+   pending at a point of that pass are calls that were started after that point had been passed *)
+Lemma run_pass_await hooks orc m pred s s' t :
+  run_pass hooks orc m pred s = (s', t, POk) ->
+  (forall h, In h hooks -> is_call h = true -> fst (h_trig h) = m -> fst (h_await h) = m ->
+     pred (snd (h_trig h)) = true -> pred (snd (h_await h)) = true ->
+     (snd (h_trig h) < snd (h_await h))%Z -> exists h', In h' hooks /\ h_trig h' = h_await h) ->
+  forall w i, In ((m, w), i) (e_pend s') -> pred w = true ->
+    exists h snap, In (TStart i h snap) t /\ h_await h = (m, w) /\ (w < snd (h_trig h))%Z.
+Proof.
+  unfold run_pass. intros H Hside w i Hin Hp.
+  assert (Hcl : await_closed hooks m pred (pass_weights hooks m pred s)).
+  { intros h Hh Hc Hm Hw Ha Hpa Hlt. apply pass_weights_in in Hw. destruct Hw as [Hpt _].
+    destruct (Hside h Hh Hc Hm Ha Hpt Hpa Hlt) as (h' & Hh' & Ht').
+    apply pass_weights_in. split; [exact Hpa|]. left. apply trig_weights_in.
+    exists h'. split; [exact Hh'|]. rewrite Ht'. destruct (h_await h) as [am aw]. cbn in *. subst. reflexivity. }
+  destruct (pass_loop_await _ _ _ _ _ (pass_weights_sorted hooks m pred s) Hcl _ _ _ H w i Hin Hp)
+    as [[Hold Hnw]|R]; [|exact R].
+  exfalso. apply Hnw. apply pass_weights_in. split; [exact Hp|]. right.
+  apply pend_weights_in. exists i. exact Hold.
+Qed.
+
+(* the statement without the side condition is false: the weight list is fixed on entry *)
+Definition await_statement : Prop :=
+  forall hooks orc m pred s s' t,
+    run_pass hooks orc m pred s = (s', t, POk) ->
+    forall w i, In ((m, w), i) (e_pend s') -> pred w = true ->
+      exists h snap, In (TStart i h snap) t /\ (w < snd (h_trig h))%Z.
+
+Definition wit_await_hooks : list hook :=
+  [mkHook 1 HCall (MBefore CONFIGURE, 1%Z) (MBefore CONFIGURE, 5%Z) true].
+Definition wit_await_orc : oracle := mkOracle 0 [] [] [].
+
+Lemma await_statement_refuted : ~ await_statement.
+Proof.
+  intro H.
+  specialize (H wit_await_hooks wit_await_orc (MBefore CONFIGURE) wnonneg (est0 DEPLOYED)).
+  destruct (run_pass wit_await_hooks wit_await_orc (MBefore CONFIGURE) wnonneg (est0 DEPLOYED))
+    as [[s' t] p] eqn:E.
+  vm_compute in E. inversion E; subst. clear E.
+  destruct (H _ _ eq_refl 5%Z (mkInst 1 0 false true)) as (h & snap & Hin & Hlt);
+    [left; reflexivity|reflexivity|].
+  destruct Hin as [Heq|[Heq|[]]]; inversion Heq; subst. cbn in Hlt. lia.
+Qed.
+
+(* ------------------------------------------------------------------ ParseTriggerExpression *)
+
+Definition no_sign (l : str) : Prop := forallb (fun c => negb (is_sign c)) l = true.
+
+Lemma last_sign_none l : forall i acc, no_sign l -> last_sign l i acc = acc.
+Proof.
+  induction l as [|c l IH]; intros i acc H; [reflexivity|].
+  unfold no_sign in H. cbn in H. apply andb_true_iff in H. destruct H as [Hc Hl].
+  cbn. apply negb_true_iff in Hc. rewrite Hc. apply IH. exact Hl.
+Qed.
+
+Lemma last_sign_app a c ds : forall i acc, is_sign c = true -> no_sign ds ->
+  last_sign (a ++ c :: ds) i acc = Some (i + length a)%nat.
+Proof.
+  induction a as [|x a IH]; intros i acc Hc Hd.
+  - cbn. rewrite Hc. rewrite last_sign_none by exact Hd. f_equal. lia.
+  - cbn. rewrite IH by assumption. f_equal. lia.
+Qed.
+
+(* no '+' / '-' at all: the whole string is the name, weight +0 *)
+Lemma parse_trigger_plain s : no_sign s -> parse_trigger s = (s, 0%Z).
+Proof. intro H. unfold parse_trigger. rewrite last_sign_none by exact H. reflexivity. Qed.
+
+(* otherwise the split is at the LAST sign character; an unparsable weight counts as 0 *)
+Lemma parse_trigger_signed name c ds : is_sign c = true -> no_sign ds ->
+  parse_trigger (name ++ c :: ds) =
+  (name, match atoi_signed (c :: ds) with Some v => v | None => 0%Z end).
+Proof.
+  intros Hc Hd. unfold parse_trigger. rewrite last_sign_app by assumption. cbn [Nat.add].
+  rewrite firstn_app, Nat.sub_diag, firstn_all, skipn_app, Nat.sub_diag, skipn_all. cbn.
+  rewrite app_nil_r. reflexivity.
+Qed.
+
+Lemma digits_val_app a b : forall acc,
+  digits_val (a ++ b) acc = match digits_val a acc with Some v => digits_val b v | None => None end.
+Proof.
+  induction a as [|c a IH]; intro acc; [reflexivity|]. cbn. destruct (is_dig c); [apply IH|reflexivity].
 Qed.
